@@ -52,7 +52,7 @@ ASSUMPTIONS = [
   "a simulation exception raised inside sim_eval_combinational/sim_tick on a legal history is "
   "reported as a violation (the implementation produced no outputs), not as a harness error",
 ]
-QUICK_S = 42
+QUICK_S = 240
 THOROUGH_S = 720
 
 CAPS = [1, 2, 3, 4, 5]
